@@ -219,7 +219,12 @@ def run(rep, tier, seed):
                           "trailing spaces at any line end, components included (C17_trailing_*_events(_fm): content up to blank "
                           "space in step text, presence of an error; C17_trailing_*_recipe: the recipe up to blank space in step "
                           "and paragraph text, validity, metadata map; hypotheses: no text mode, INLINE_QUANTITIES off or the "
-                          "find_inline_quantity oracle reads U+0020 runs alike); text mode and the blank-on-both-sides comment are "
+                          "find_inline_quantity oracle reads U+0020 runs alike); the padded block comment `word [- c -] next` "
+                          "(blank + comment + blank, also glued to the next word, longer runs of U+0020) after a word or number token, "
+                          "outside braces and outside metadata values, components included (C17_padded_comment_events(_fm), "
+                          "C17_padded_comment_recipe(_fm): same relation and hypotheses as the trailing edit; a metadata VALUE, a blank "
+                          "run ending in a TAB and the glued spelling inside braces are refuted places: C17_padded_meta_value_refuted, "
+                          "_tab_refuted, _brace_refuted, none of them judged by the monitor); text mode is "
                           "observed on the implementation only: the monitor compares complete parse results")
     rep.coverage.update({
         "evaluations": len(pairs) + ncases, "distinct_nontrivial": len(nontrivial),
